@@ -359,37 +359,42 @@ class FillText(Space):
                     for n in range(1, self.maxn + 1):
                         for lens in itertools.product((1, 2, 3, 5, self.maxw + 1), repeat=n):
                             for split in ([None] + list(range(1, n))):
-                                yield (mode, width, extra, lens, split)
+                                for lay in ((0, 1, 2) if n > 1 else (0,)):
+                                    yield (mode, width, extra, lens, split, lay)
+
+    LAYOUTS = (" ", "  ", "\n")  # separator between the words of one paragraph in the INPUT
 
     def smaller(self, case):
-        mode, width, extra, lens, split = case
+        mode, width, extra, lens, split, lay = case
+        if lay:
+            yield (mode, width, extra, lens, split, 0)
         if split is not None:
-            yield (mode, width, extra, lens, None)
+            yield (mode, width, extra, lens, None, lay)
         if split is None:
             for i in range(len(lens)):
                 if len(lens) > 1:
-                    yield (mode, width, extra, lens[:i] + lens[i + 1:], None)
+                    yield (mode, width, extra, lens[:i] + lens[i + 1:], None, lay)
             for i in range(len(lens)):
                 if lens[i] > 1:
-                    yield (mode, width, extra, lens[:i] + (1,) + lens[i + 1:], None)
+                    yield (mode, width, extra, lens[:i] + (1,) + lens[i + 1:], None, lay)
         if extra:
-            yield (mode, width, 0, lens, split)
+            yield (mode, width, 0, lens, split, lay)
         if width > 5:
-            yield (mode, width - 1, extra, lens, split)
+            yield (mode, width - 1, extra, lens, split, lay)
 
     def _text(self, case):
-        mode, width, extra, lens, split = case
+        mode, width, extra, lens, split, lay = case
         words = plain_words(lens)
         paras = [words] if split is None else [words[:split], words[split:]]
-        return paras, "\n\n".join(" ".join(p) for p in paras)
+        return paras, "\n\n".join(self.LAYOUTS[lay].join(p) for p in paras)
 
     def describe(self, case):
-        mode, width, extra, lens, split = case
+        mode, width, extra, lens, split, lay = case
         return {"fn": "reformat_text(plaintext=True)" if mode == len(FILLMODES) else f"fill_text({FILLMODES[mode]})",
                 "text": self._text(case)[1], "width": width, "extra_indent": " " * extra}
 
     def evaluate(self, case):
-        mode, width, extra, lens, split = case
+        mode, width, extra, lens, split, lay = case
         paras, text = self._text(case)
         viol, tags = [], []
         if mode == len(FILLMODES):
@@ -419,6 +424,13 @@ class FillText(Space):
                     tags.append("wrapped")
                 ls = strip_indents(gp, pinit, sub, viol, "fill")
                 if ls is None:
+                    continue
+                if eff <= 0:
+                    # no wrapping: runs of spaces inside the line may be kept (Wrap.WRAP keeps whitespace); compare words
+                    got_words = [ln.split() for ln in ls]
+                    if got_words != model:
+                        viol.append(("model:fill", {"got": gp, "model": model, "eff_width": eff}))
+                    posts(viol, got_words, words, eff, len(pinit), len(sub))
                     continue
                 if ls != [" ".join(l) for l in model]:
                     viol.append(("model:fill", {"got": gp, "model": model, "eff_width": eff}))
